@@ -1128,3 +1128,19 @@ where
     let _ = self.multi_remove(keys);
   }
 }
+
+#[cfg(excsn_fibre_verif)]
+impl<K: Send, V: Send + Sync, H> Cache<K, V, H> {
+  /// Verification only: pushes a marker through the eviction-notification queue (blocking
+  /// send, never dropped). The queue is FIFO with a single consumer, so once the listener
+  /// has seen the marker every notification sent before it has been delivered. Touches
+  /// neither the map nor the policy. Returns false when no listener is installed.
+  pub fn verif_notify_marker(&self, key: K, value: V) -> bool {
+    match &self.shared.notification_sender {
+      Some(s) => s
+        .send((key, Arc::new(value), EvictionReason::Invalidated))
+        .is_ok(),
+      None => false,
+    }
+  }
+}
